@@ -10,3 +10,5 @@ open Pcore.Syntax
 #print axioms C05_type_reprint
 #print axioms C05_exact_string_prints_plain
 #print axioms C05_struct_key_forms
+#print axioms C05_callable_unit_dropped
+#print axioms C05_callable_leading_tuple
